@@ -359,3 +359,64 @@ pub fn gen_det(rng: &mut Rng, thorough: bool) -> Vec<String> {
     }
     ops
 }
+
+// ------------------------------------------------------------------------------------------------
+// C08 with legacy (variable-length, prefix-related) contract addresses: contract1 / contract10 / contract11 …
+
+pub fn gen_legacy(rng: &mut Rng, thorough: bool) -> Vec<String> {
+    let mut ops: Vec<String> = vec![];
+    for u in ["u1", "u2", "u3", "n1"] {
+        ops.push(format!("bind {} {}", u, u));
+    }
+    ops.push(format!("bind creator {}", cosmwasm_std::testing::MockApi::default().addr_make("creator")));
+    for c in 1..=2u64 {
+        ops.push(format!("bindc {} {}", c, hex(&default_checksum(c))));
+    }
+    let n_contracts = 13u64;
+    let sym = |i: u64| format!("c{}_{}", (i % 2) + 1, i);
+    for c in 1..=2u64 {
+        for i in 0..20u64 {
+            ops.push(format!("bind c{}_{} contract{}", c, i, i));
+        }
+    }
+    ops.push("store A".into());
+    ops.push("store B".into());
+    ops.push("init-bal u1 50:d1".into());
+    for i in 0..n_contracts {
+        ops.push(format!("exec u1 (inst {} ((w 6b {:02x})) - l{} u1 ~)", (i % 2) + 1, i + 1, i));
+    }
+    ops.push("trace".into());
+    ops.push("dump".into());
+    // keys whose first bytes spell the tail of a longer sibling address ("0", "1", "2", "0k" …)
+    let keys = ["30", "31", "32", "306b", "316b", "30+6b", "-", "6b", "3030", "ff"];
+    let focus: Vec<String> = [1u64, 10, 11, 12, 2, 0].iter().map(|i| sym(*i)).collect();
+    let n = if thorough { rng.range(5, 12) } else { rng.range(3, 7) };
+    for _ in 0..n {
+        let c = rng.pick(&focus);
+        let k = rng.range(1, 3);
+        let mut acts = vec![];
+        for _ in 0..k {
+            let key = rng.pick(&keys);
+            match rng.below(6) {
+                0 => acts.push(format!("(rm {})", key)),
+                1 => acts.push("(rng ~ ~ asc)".to_string()),
+                2 => acts.push(format!("(rd {})", key)),
+                _ => acts.push(format!("(w {} {:02x})", key, rng.range(1, 200))),
+            }
+        }
+        if rng.chance(1, 8) {
+            acts.push("(fail)".into());
+        }
+        ops.push("rawhash".into());
+        ops.push(format!("exec u1 (exec {} ({}) -)", c, acts.join(" ")));
+        ops.push("trace".into());
+        ops.push("dump".into());
+        ops.push("rawhash".into());
+        for c2 in &focus {
+            ops.push(format!("wdump {}", c2));
+            ops.push(format!("cstore {} ~ ~ asc", c2));
+            ops.push(format!("q-raw {} {}", c2, rng.pick(&keys)));
+        }
+    }
+    ops
+}
